@@ -76,7 +76,7 @@ def main():
      "hooks":{
        "guard":"probminhash_verif",
        "enable":"RUSTFLAGS=--cfg probminhash_verif (set in /verif/.cargo/config.toml; the simulator crates have a path dependency on /repo so every check recompiles the current working tree)",
-       "baseline_off_cmd":"cd /repo && (cargo nextest run --workspace --no-fail-fast --tool-config-file pb:/w/lib/nextest.toml --profile pb --test-threads 8 --offline || cargo test --workspace --no-fail-fast --offline)",
+       "baseline_off_cmd":"cd /repo && cargo nextest run --workspace --no-fail-fast --tool-config-file pb:/w/lib/nextest.toml --profile pb --test-threads 8 --offline",
        "source_commits":hook_commits,
        "add_only":True
      },
